@@ -159,12 +159,34 @@ def conc_div(a, b):
         return float('inf') if (a > 0) == (b > 0) else float('-inf')
 
 
+_RV, _IV = {}, {}
+_TRUE, _FALSE = z3.BoolVal(True), z3.BoolVal(False)
+
+
+def _realval(x):
+    r = _RV.get(x)
+    if r is None:
+        r = z3.RealVal(x) if isinstance(x, int) else z3.RealVal(str(_frac(x)))
+        if len(_RV) < 4096:
+            _RV[x] = r
+    return r
+
+
+def _intval(x):
+    r = _IV.get(x)
+    if r is None:
+        r = z3.IntVal(x)
+        if len(_IV) < 4096:
+            _IV[x] = r
+    return r
+
+
 def _zb(x):
     """-> z3 Bool term."""
     if isinstance(x, SymBool):
         return x.t
     if isinstance(x, bool):
-        return z3.BoolVal(x)
+        return _TRUE if x else _FALSE
     if isinstance(x, SymInt):
         return x.t != 0
     if isinstance(x, int):
@@ -185,14 +207,13 @@ def _zr(x):
     if isinstance(x, SymBool):
         return z3.If(x.t, z3.RealVal(1), z3.RealVal(0))
     if isinstance(x, bool):
-        return z3.RealVal(int(x))
+        return _realval(int(x))
     if isinstance(x, int):
-        return z3.RealVal(int(x))
+        return _realval(int(x))
     if isinstance(x, float):
         if x != x or x in (float('inf'), float('-inf')):
             raise ModelGap("non-finite concrete float in a real term")
-        fr = _frac(x)
-        return z3.RealVal(str(fr))
+        return _realval(float(x))
     if isinstance(x, fractions.Fraction):
         return z3.RealVal(str(x))
     raise ModelGap("cannot use %r as a real term" % (type(x),))
@@ -205,9 +226,9 @@ def _zi(x):
     if isinstance(x, SymBool):
         return z3.If(x.t, z3.IntVal(1), z3.IntVal(0))
     if isinstance(x, bool):
-        return z3.IntVal(int(x))
+        return _intval(int(x))
     if isinstance(x, int):
-        return z3.IntVal(int(x))
+        return _intval(int(x))
     raise ModelGap("cannot use %r as an int term" % (type(x),))
 
 
@@ -320,11 +341,6 @@ class SymBool:
 
 
 def mk_bool(t):
-    t = z3.simplify(t) if False else t
-    if z3.is_true(t):
-        return True
-    if z3.is_false(t):
-        return False
     return SymBool(t)
 
 
@@ -780,6 +796,19 @@ class Explorer:
             return True
         if z3.is_false(t):
             return False
+        # already decided on this path (hash-consed term identity; the term is kept alive)
+        hit = self.decided.get(t.get_id())
+        if hit is not None:
+            return hit[1]
+        if z3.is_not(t):
+            hit = self.decided.get(t.arg(0).get_id())
+            if hit is not None:
+                return not hit[1]
+        val = self._decide(t)
+        self.decided[t.get_id()] = (t, val)
+        return val
+
+    def _decide(self, t):
         self.n_decisions += 1
         if self.pos < len(self.prefix):
             kind, val = self.prefix[self.pos]
@@ -974,6 +1003,7 @@ class Explorer:
                 self.pos = 0
                 self.trace = []
                 self.vars = {}
+                self.decided = {}
                 self.path_reached_assert = False
                 self.n_paths += 1
                 try:
